@@ -411,7 +411,23 @@ func c11(c *ev.Ctx) {
 			full := string(eb)
 			blocked := strings.Count(full, "sync.(*Mutex).Lock")
 			running := strings.Count(full, "vm.(*VM).Run(")
-			if strings.Contains(full, "SIGQUIT") && blocked >= G-2 && running == 0 {
+			// the wider picture: of the goroutines that are inside the library, how many are
+			// parked on a lock (Mutex or RWMutex) and how many can still make progress?
+			libWaiting, libActive := 0, 0
+			for _, g := range strings.Split(full, "\n\n") {
+				if !strings.HasPrefix(g, "goroutine ") || !strings.Contains(g, "github.com/skx/evalfilter/v2") {
+					continue
+				}
+				hdr := strings.SplitN(g, "\n", 2)[0]
+				if strings.Contains(hdr, "sync.Mutex.Lock") || strings.Contains(hdr, "sync.RWMutex") || strings.Contains(hdr, "semacquire") {
+					libWaiting++
+				} else {
+					libActive++
+				}
+			}
+			if strings.Contains(full, "SIGQUIT") && libWaiting >= G && libActive == 0 {
+				c.Violation(fmt.Sprintf("proc/%d", p), "deadlock under concurrent use", map[string]interface{}{"summary": fmt.Sprintf("the workload stopped making progress: all %d goroutines that are inside the library are parked on a lock and none can release it", libWaiting), "stderr": clip(full, 6000)})
+			} else if strings.Contains(full, "SIGQUIT") && blocked >= G-2 && running == 0 {
 				// state-based verdict, not a time-based one: every worker goroutine waits for
 				// the evaluator's lock and nobody is inside the machine
 				c.Violation(fmt.Sprintf("proc/%d", p), "deadlock under concurrent use", map[string]interface{}{"summary": fmt.Sprintf("the workload stopped making progress: %d goroutines are blocked in Mutex.Lock and none is executing the machine (the evaluator's lock was never released)", blocked), "stderr": clip(full, 6000)})
